@@ -8,5 +8,5 @@ if [ -n "$(git status --porcelain)" ]; then echo "mutant.sh: /repo is dirty" >&2
 git apply "$patch" || { echo "mutant.sh: patch does not apply" >&2; exit 2; }
 trap 'git -C /repo checkout -- . ; git -C /repo clean -fdq' EXIT
 cd /verif
-VERIF_DIR=/verif ./run "$prop" "$tier" 2>&1 | grep -E "VIOLATION|KNOWN-FINDING|INTERNAL|violation:|executions=" | head -${LINES_MAX:-12}
+VERIF_DIR=/verif ./run "$prop" "$tier" 2>&1 | grep -E "VIOLATION|KNOWN-FINDING|INTERNAL|violation|executions=" | head -${LINES_MAX:-12}
 exit ${PIPESTATUS[0]}
